@@ -8,7 +8,7 @@ use std::path::PathBuf;
 use std::time::Duration;
 use tokio::fs::File;
 use tokio::{
-    io::{AsyncRead, AsyncReadExt, AsyncSeek, AsyncSeekExt, AsyncWrite},
+    io::{AsyncRead, AsyncReadExt, AsyncSeek, AsyncSeekExt, AsyncWrite, AsyncWriteExt},
     task::spawn_blocking,
 };
 use url::Url;
@@ -313,6 +313,12 @@ where
             ))?;
 
     let mut output_file = output.into_inner();
+    // Writes to a tokio file complete in the background: wait for the last one so that its
+    // error is not lost.
+    output_file
+        .flush()
+        .await
+        .context(format!("Failed to write to {}", opts.output.display()))?;
     if !output_is_block_dev {
         // Resize output file to same size as the archive source
         output_file
